@@ -104,7 +104,7 @@ Fixpoint bg_sum_exact (l : list bg_txn) : option Z :=
               end
   end.
 
-Definition bg_cost_ok (t : bg_txn) : Prop := exists c, bt_cost t = Some c /\ 0 <= c < 2 ^ 62.
+Definition bg_cost_ok (t : bg_txn) : Prop := exists c, bt_cost t = Some c /\ 0 <= c < 2 ^ 63.
 
 Lemma bg_sum_exact_app l1 l2 s1 s2 :
   bg_sum_exact l1 = Some s1 -> bg_sum_exact l2 = Some s2 -> bg_sum_exact (l1 ++ l2) = Some (s1 + s2).
@@ -155,6 +155,22 @@ Proof.
   - inversion Hf; subst. destruct H1 as [c [Hc Hr]]. rewrite Hc in *.
     destruct (bg_sum_exact r) eqn:E; try discriminate. inversion Hs; subst.
     pose proof (bg_sum_exact_nonneg _ _ H2 E).
+    rewrite bg_wrap_small by lia.
+    rewrite (IH (acc + c) z H2 eq_refl) by lia. f_equal. lia.
+Qed.
+
+(* the verifier's guarded loop accepts exactly when the exact sum stays within the limit *)
+Lemma bg_ver_costs_exact max l acc s :
+  Forall bg_cost_ok l -> bg_sum_exact l = Some s -> 0 <= acc -> acc + s <= max -> max < 2 ^ 63 ->
+  bg_ver_costs max l acc = Some (acc + s).
+Proof.
+  revert acc s. induction l as [|t r IH]; simpl; intros acc s Hf Hs Ha Hb Hm.
+  - inversion Hs; subst. f_equal. lia.
+  - inversion Hf; subst. destruct H1 as [c [Hc Hr]]. rewrite Hc in *.
+    destruct (bg_sum_exact r) eqn:E; try discriminate. inversion Hs; subst.
+    pose proof (bg_sum_exact_nonneg _ _ H2 E).
+    rewrite (bg_wrap_small (max - acc)) by lia.
+    destruct (Z.ltb_spec (max - acc) c); [lia|].
     rewrite bg_wrap_small by lia.
     rewrite (IH (acc + c) z H2 eq_refl) by lia. f_equal. lia.
 Qed.
